@@ -382,6 +382,29 @@ pub fn run(args: &Args) -> i32 {
             }
         }
     }
+    // measured from outside: a serial port / RTU server port that is lost is re-opened no earlier
+    // than the strategy's delay
+    {
+        let reps = args.tier.pick(2usize, 16);
+        for k in 0..reps {
+            let mut e = Evidence::new();
+            let problems = rt.block_on(crate::serial::serial_client_reopen(k, &mut e));
+            ev.merge(e);
+            ev.eval();
+            for (sig, what) in problems {
+                if sig.contains("delay") {
+                    ev.violation(sig, what, json!({"leg": "serial_client_reopen", "k": k}));
+                }
+            }
+            let mut e = Evidence::new();
+            let problems = rt.block_on(crate::serial::rtu_server_reopen(k, &mut e));
+            ev.merge(e);
+            ev.eval();
+            for (sig, what) in problems {
+                ev.violation(sig, what, json!({"leg": "rtu_server_reopen", "k": k}));
+            }
+        }
+    }
     ev.sample(json!({"strategy_lattice": lattice().iter().map(|d| format!("{d:?}")).collect::<Vec<_>>(), "task_level": {"min_ms": 20, "max_ms": 150, "outcomes": "refused / accepted then closed / accepted then garbage"}}));
     let meta = Meta {
         property_id: "C14",
